@@ -566,6 +566,78 @@ C15_BLE_LAYERS = [Layer("ble-fragment-reassembly", run_c15_ble, enumerate=enum_c
                                                "the reply PDU in HAP-BLE fragments of every size 8..120", min_nontrivial=10)]
 
 
+# ---------------------------------------------------------------- C08 on BLE: a request abandoned half way never poisons the next one
+def run_c08_ble(case, R):
+    """An honest accessory; some requests are cancelled by their caller after k loop iterations (between the GATT write and the GATT read for some k)
+    or hit a GATT error.  Every request that is allowed to finish gets its own answer."""
+    R.nt(any(o[0] in ("cancel", "gatt-error") for o in case["ops"]))
+    R.cls("c08-ble")
+
+    async def main(loop):
+        w = BleWorld(loop, k=case.get("k", 0), att_payload=case.get("att", 155))
+        try:
+            p = w.pairing
+            val = 0
+            for i, op in enumerate(case["ops"]):
+                name = op[0]
+                val += 1
+                what = f"BLE op {i} {op} of {case['ops']}"
+                if name == "gatt-error":
+                    if w.client is not None:
+                        w.client.gatt_error_at = w.client.ops + 1 + op[1] % 6
+                    continue
+                write = name == "put" or (name == "cancel" and op[1] & 1)
+                coro = p.put_characteristics([(1, 11, val % 200)]) if write else p.get_characteristics([(1, 11), (1, 10)])
+                t = asyncio.ensure_future(coro)
+                if name == "cancel":
+                    for _ in range(1 + op[2] % 16):
+                        await asyncio.sleep(0)
+                    t.cancel()
+                    try:
+                        await t
+                    except BaseException:  # noqa: BLE001
+                        pass
+                    if write:
+                        # the write may or may not have reached the accessory
+                        known = None
+                    await vtime.settle(loop)
+                    continue
+                try:
+                    r = await asyncio.wait_for(t, 300)
+                except Exception as e:  # noqa: BLE001
+                    R.fail("C08.wrong-error", f"{what}: the accessory is healthy, the request failed with {type(e).__name__}: {e}", exc=type(e).__name__)
+                    return
+                if write:
+                    if r:
+                        R.fail("C08.wrong-response", f"{what}: write reported {r!r}", got="other-request")
+                        return
+                    if w.acc.chars[11]["value"] != bytes([val % 200]):
+                        R.fail("C08.wrong-response", f"{what}: the accessory holds {w.acc.chars[11]['value']!r}, written {val % 200}", got="other-request")
+                        return
+                else:
+                    exp11 = w.acc.chars[11]["value"][0]
+                    if r != {(1, 11): {"value": exp11}, (1, 10): {"value": False}}:
+                        R.fail("C08.wrong-response", f"{what}: read returned {r!r}, the accessory holds {exp11}", got="other-request")
+                        return
+            await p.shutdown()
+        finally:
+            w.restore()
+    vtime.run(main)
+
+
+def enum_c08_ble(tier):
+    for k_ in range(16):
+        for w_ in (0, 1):
+            yield {"ops": [["put"], ["cancel", w_, k_], ["get"], ["put"], ["get"]]}
+            yield {"ops": [["get"], ["cancel", w_, k_], ["cancel", 1 - w_, (k_ * 3) % 16], ["put"], ["get"]], "att": 40}
+    for k_ in range(6):
+        yield {"ops": [["get"], ["gatt-error", k_], ["put"], ["get"], ["gatt-error", k_ + 1], ["get"]]}
+
+
+C08_BLE_LAYERS = [Layer("ble-abandoned-requests", run_c08_ble, enumerate=enum_c08_ble, exhaustive=True,
+                        space="honest BLE accessory; a read or write cancelled after 1..16 loop iterations (every point of the write/read exchange) or hit by a GATT error, then further requests", min_nontrivial=20)]
+
+
 # ---------------------------------------------------------------- C17: PDUs through the API
 def run_c17_ble(case, R):
     n = case["len"]
